@@ -287,6 +287,8 @@ class SSet(Sym):
         self.sort, self.name = sort, name
         if sort is not None and a is None:
             a, c = z3.K(sort, False), z3.IntVal(0)
+        if sort is None:
+            c = z3.IntVal(0)
         self.a, self.c = a, c
         self._serial = C.next_serial()
 
@@ -323,7 +325,7 @@ class SSet(Sym):
 
     # -- queries
     def _vc_len(self):
-        return SInt(self.c if self.sort is not None else 0)
+        return SInt(self.c)
 
     def _vc_contains(self, x):
         if self.sort is None:
@@ -361,7 +363,7 @@ class SSet(Sym):
         o = as_set(o, self.sort)
         if self.sort is None and o.sort is None:
             return SSet()
-        sort = self.sort or o.sort
+        sort = self.sort if self.sort is not None else o.sort
         r = SSet.fresh(name, sort)
         v = bv("v!u", sort)
         C.assume(z3.ForAll([v], r.a[v] == f(self.mem(v), o.mem(v))))
@@ -907,3 +909,7 @@ class Inert:
 
     def __getattr__(self, name):
         return lambda *a, **k: None
+
+
+def K_false(sort):
+    return z3.K(sort, False)
